@@ -384,6 +384,8 @@ func (s *Subscription) populateResources(r *rpc.Resources, indirect bool) {
 
 	for _, sc := range s.refs {
 		sc.sub.populateResources(r, true)
+		// A reference still loading for an event is hereby counted
+		sc.pending = false
 	}
 }
 
@@ -430,6 +432,8 @@ func (s *Subscription) populateResourcesLegacy(r *rpc.Resources, indirect bool) 
 
 	for _, sc := range s.refs {
 		sc.sub.populateResourcesLegacy(r, true)
+		// A reference still loading for an event is hereby counted
+		sc.pending = false
 	}
 }
 
@@ -657,8 +661,10 @@ func (s *Subscription) processCollectionEvent(event *rescache.ResourceEvent) {
 				}
 
 				verifSub("sub.event", s)
+				// Count the reference as sent, unless it already was counted
+				// when this subscription was sent again while loading.
+				r := sub.GetRPCResources(ref.pending)
 				ref.pending = false
-				r := sub.GetRPCResources(true)
 				s.c.Send(rpc.NewEvent(s.rid, event.Event, rpc.AddEvent{Idx: idx, Value: v.RawMessage, Resources: r}))
 				sub.ReleaseRPCResources()
 
@@ -774,22 +780,24 @@ func (s *Subscription) processModelEvent(event *rescache.ResourceEvent) {
 				}
 
 				verifSub("sub.event", s)
-				for _, sub := range subs {
-					s.refs[sub.rid].pending = false
-				}
 				r := &rpc.Resources{}
 
+				// Count the references as sent, unless they already were
+				// counted when this subscription was sent again while loading.
 				// Legacy behavior
 				if s.c.ProtocolVersion() < versionSoftResourceReferenceAndDataValue {
 					for _, sub := range subs {
-						sub.populateResourcesLegacy(r, true)
+						sub.populateResourcesLegacy(r, s.refs[sub.rid].pending)
 					}
 					s.c.Send(rpc.NewEvent(s.rid, event.Event, rpc.ChangeEvent{Values: rescache.Legacy120ValueMap(event.Changed), Resources: r}))
 				} else {
 					for _, sub := range subs {
-						sub.populateResources(r, true)
+						sub.populateResources(r, s.refs[sub.rid].pending)
 					}
 					s.c.Send(rpc.NewEvent(s.rid, event.Event, rpc.ChangeEvent{Values: event.Changed, Resources: r}))
+				}
+				for _, sub := range subs {
+					s.refs[sub.rid].pending = false
 				}
 				for _, sub := range subs {
 					sub.ReleaseRPCResources()
